@@ -36,6 +36,9 @@ def run_seed(s, slot):
     env = dict(os.environ, MCV_REPO=scr, MCV_CACHE=os.path.join(base, 'cache'), MCV_EVDIR=os.path.join(base, 'evidence'))
     order = [meta['property']] + [c for c in checks if c != meta['property']]
     order = [c for c in order if c in checks]
+    if '--own' in sys.argv:
+        order = [meta['property']]
+        row['ran'] = order
 
     def one(c):
         r = subprocess.run(['./bin/check', c, '--tier', 'quick'], cwd=V, env=env, stdout=subprocess.PIPE, stderr=subprocess.STDOUT, text=True)
